@@ -1062,6 +1062,14 @@ class Interp:
             if it.order is None:
                 raise Unsupported("iteration over an unordered symbolic map")
             return ("sym-live-map", it)
+        if isinstance(it, SObj):
+            # objects of the models that define __iter__ / keys (HDF5 groups, attribute managers)
+            for nm in ("__iter__", "keys"):
+                try:
+                    m = self.getattr(it, nm, getattr(self, "cur_frame", None))
+                except (Unsupported, PyRaise):
+                    continue
+                return self.iter_plan(self.call(m, [], {}, self.cur_frame))
         raise Unsupported(f"iteration over {type(it).__name__}")
 
     def assigned_names(self, body):
@@ -1543,6 +1551,9 @@ class Interp:
         for k in e.keywords:
             if k.arg is None:
                 v = self.eval(k.value, f)
+                import collections.abc as _abc
+                if not isinstance(v, dict) and isinstance(v, _abc.Mapping) and not is_sym(v):
+                    v = dict(v)          # a concrete mapping object (e.g. hdf5plugin.Zstd)
                 if not isinstance(v, dict):
                     raise Unsupported("**kwargs of symbolic map")
                 kwargs.update(v)
